@@ -429,4 +429,37 @@ example : (freshOut ⟨noConv, fooFmt, false, .str "'--foo'".toList⟩).2
 example : ∃ a, Line.raw (.str "a 'b".toList) = .ok a := line_raw_total _ (by simp)
 end
 
+/-! ## Hypothesis audit of the theorems about the two forms (rounds 8-9) -/
+
+section AuditR9
+open Clikit Clikit.Tokenizer Clikit.Parser Clikit.Lines Clikit.Props.C05
+
+/-- (hypothesis audit) The hypothesis of `line_history_form_irrelevant` compares whole outputs, raw args included, and
+the raw args of a command string (no script name) never equal those of an argv list (a script name): it can only be
+met by histories whose lines have pairwise the same form.  The statement about lines "in whatever forms" is this one,
+on the PARSES alone: two histories whose lines have the same fresh parses - a command string here, the argv list of
+its tokens there - get the same parses from any two parser objects. -/
+theorem line_history_forms_same_parses (σ σ' : St) (rs rs' : List LReq)
+    (h : rs.map (fun r => (freshOut r).2) = rs'.map (fun r => (freshOut r).2)) :
+    (lineHistory σ rs).map (·.2) = (lineHistory σ' rs').map (·.2) := by
+  rw [line_history_fresh, line_history_fresh, List.map_map, List.map_map]
+  exact h
+
+/-- applied with mixed forms: `'--foo' -- x` as a command string on an object that parsed before, and the argv list
+`p --foo -- x` on a fresh object -/
+example : (lineHistory dirty [⟨noConv, fooFmt, false, .str "'--foo' -- x".toList⟩]).map (·.2) =
+    (lineHistory St.empty [⟨noConv, fooFmt, false, .argv ["p".toList, "--foo".toList, "--".toList, "x".toList]⟩]).map (·.2) :=
+  line_history_forms_same_parses _ _ _ _ (by decide)
+
+/-- the raw args of the two forms differ (script name), so `line_history_form_irrelevant` does not apply to them ... -/
+example : (freshOut ⟨noConv, fooFmt, false, .str "'--foo'".toList⟩).1 ≠
+    (freshOut ⟨noConv, fooFmt, false, .argv ["p".toList, "--foo".toList]⟩).1 := by decide
+
+/-- ... it applies to the same lines on two parser objects -/
+example : lineHistory dirty [⟨noConv, fooFmt, false, .str "-- --foo".toList⟩, ⟨noConv, fooFmt, true, .argv ["p".toList, "y".toList, "z".toList]⟩] =
+    lineHistory St.empty [⟨noConv, fooFmt, false, .str "-- --foo".toList⟩, ⟨noConv, fooFmt, true, .argv ["p".toList, "y".toList, "z".toList]⟩] :=
+  line_history_form_irrelevant _ _ _ _ rfl
+
+end AuditR9
+
 end Clikit.Props.C08
